@@ -25,6 +25,8 @@ import OFV.Proofs.C08Car
 import OFV.Proofs.C08Maj
 import OFV.Proofs.C08Comp
 import OFV.Proofs.C08ScatterC03
+import OFV.Proofs.C08Dch
+import OFV.Proofs.C08Qh
 import OFV.Proofs.C08Doci
 import OFV.Spec.Expr
 
@@ -310,6 +312,79 @@ example : (0 : Rat) ≤ Generated.eqTolerance ∧ Generated.eqTolerance * ((2 ^ 
       | .ok P => P.n
       | .error _ => 0) = 2 := by
   refine ⟨by norm_num [Generated.eqTolerance], by norm_num [Generated.eqTolerance], by decide +kernel⟩
+
+/-! ### `get_diagonal_coulomb_hamiltonian` -/
+
+/-- **`get_diagonal_coulomb_hamiltonian_sound`**: whenever
+`get_diagonal_coulomb_hamiltonian(A, n_qubits, ignore_incompatible_terms=False)` succeeds and the
+exactness flag of the run is `true` (the two-body coefficients of `normal_ordered(A)` are real — the
+source silently drops an imaginary part below the tolerance; the driver reports the flag for every
+generated input), the DiagonalCoulombHamiltonian `(one_body, two_body, constant)` — after the
+constructor has moved the diagonal of `two_body` to `one_body` — denotes, by the class docstring
+`Σ T_pq a†_p a_q + Σ V_pq a†_p a_p a†_q a_q + constant` (`Spec.C08.denoteDCH`), an operator with the
+matrix elements of `A`: for every FermionOperator with actions 0 / 1 in any spelling, at the live
+tolerance on a coefficient lattice `(1/D)·ℤ[i]` with `tol·D ≤ 1`.  Uses the Model and the theorems of
+C03 for `normal_ordered` and the canonical anticommutation relations of the Spec for
+`n_p n_q = n_q n_p = -a†_p a†_q a_p a_q` (`V_pq = V_qp = -c/2`). -/
+theorem get_diagonal_coulomb_hamiltonian_sound (D : Nat) (hD : 0 < D) (tol : Rat) (h0 : 0 ≤ tol)
+    (h1 : tol * D ≤ 1) (A : Model.Op) (n? : Option Nat) (H : DCH) (hv : ∀ e ∈ A, ∀ f ∈ e.1, f.2 < 2)
+    (la : ∀ e ∈ A, Proofs.C03.Lat D e.2) (h : getDiagonalCoulomb tol A n? false = .ok H)
+    (hex : dchExact tol A = true) (t s : Nat) :
+    melF (denoteDCH H.n H.one H.two H.c) t s = melF A t s :=
+  getDCH_sound_flag D hD tol h0 h1 A n? H hv la h hex t s
+
+/-- the scatter loop and the constructor alone, on a normal-ordered dictionary, for every weight on
+words that satisfies `n_p n_q = n_q n_p = -a†_p a†_q a_p a_q` (`p ≠ q`) -/
+theorem get_diagonal_coulomb_hamiltonian_scatter_sound (tol : Rat) (n : Nat) (no : Model.Op) (c : GQ)
+    (one two : Tensor) (H : DCH)
+    (h : dchScatter tol false n no = .ok (c, one, two)) (hmk : mkDCH n one two c = .ok H)
+    (hnd : (no.map Prod.fst).Nodup) (hsm : ∀ e ∈ no, GQ.isSmall tol e.2 = false)
+    (hn : ∀ e ∈ no, ∀ f ∈ e.1, f.1 < n) (hno : ∀ e ∈ no, Spec.C02.NormalOrderedF e.1)
+    (hre : ∀ p q, (Dict.getD no [(p, 1), (q, 1), (p, 0), (q, 0)] 0).im = 0)
+    (w : Model.Term → GQ)
+    (W : ∀ p q, p ≠ q → w [(p, 1), (p, 0), (q, 1), (q, 0)] = -(w [(p, 1), (q, 1), (p, 0), (q, 0)]) ∧
+      w [(q, 1), (q, 0), (p, 1), (p, 0)] = -(w [(p, 1), (q, 1), (p, 0), (q, 0)])) :
+    evalW w (denoteDCH H.n H.one H.two H.c) = evalW w no :=
+  dch_denote tol n no c one two H h hmk hnd hsm hn hno hre w W
+
+/-- non-vacuity: `2 a†_1 a†_0 a_1 a_0 + a†_0 a_1 + a†_1 a_0` converts, in the exact regime -/
+example : dchExact Generated.eqTolerance
+      [([(1, 1), (0, 1), (1, 0), (0, 0)], 2), ([(0, 1), (1, 0)], 1), ([(1, 1), (0, 0)], 1)] = true ∧
+    (match getDiagonalCoulomb Generated.eqTolerance
+        [([(1, 1), (0, 1), (1, 0), (0, 0)], 2), ([(0, 1), (1, 0)], 1), ([(1, 1), (0, 0)], 1)] none false with
+      | .ok H => H.n
+      | .error _ => 0) = 2 := by
+  decide +kernel
+
+/-! ### `get_quadratic_hamiltonian` -/
+
+/-- **`get_quadratic_hamiltonian_sound`**: whenever
+`get_quadratic_hamiltonian(A, chemical_potential, n_qubits, ignore_incompatible_terms=False)` succeeds
+and the exactness flag of the run is `true` (every pairing term `c a†_p a†_q` of `normal_ordered(A)`
+has exactly the partner `-conj(c) a_p a_q` — the source accepts a discrepancy below the tolerance; the
+driver reports the flag for every generated input), the QuadraticHamiltonian — the PolynomialTensor
+`{(): constant, (1,0): M - μ·1, (1,1): Δ/2, (0,0): -Δ*/2}` the constructor builds from the combined
+Hermitian part and the antisymmetric part, or without the last two when the antisymmetric part is
+negligible — has the matrix elements of `A`: for every FermionOperator with actions 0 / 1 in any
+spelling, every chemical potential, at the live tolerance on a coefficient lattice `(1/D)·ℤ[i]` with
+`tol·D ≤ 1`.  Uses the Model and theorems of C03 for `normal_ordered` and the anticommutation of the
+Spec for `a†_q a†_p = -a†_p a†_q`, `a_q a_p = -a_p a_q` (the antisymmetrisation halves). -/
+theorem get_quadratic_hamiltonian_sound (D : Nat) (hD : 0 < D) (tol : Rat) (h0 : 0 ≤ tol) (h1 : tol * D ≤ 1)
+    (A : Model.Op) (mu : GQ) (n? : Option Nat) (P : PT) (hv : ∀ e ∈ A, ∀ f ∈ e.1, f.2 < 2)
+    (la : ∀ e ∈ A, Proofs.C03.Lat D e.2) (h : getQuadraticHamiltonian tol A mu n? false = .ok P)
+    (hex : qhExact tol A = true) (t s : Nat) :
+    melF (denotePT P.d) t s = melF A t s :=
+  getQH_sound D hD tol h0 h1 A mu n? P hv la h hex t s
+
+/-- non-vacuity: `a†_1 a†_0 - a_1 a_0 + a†_0 a_0` with chemical potential 1/2, in the exact regime;
+the antisymmetric part is kept (four tensors) -/
+example : qhExact Generated.eqTolerance
+      [([(1, 1), (0, 1)], 1), ([(1, 0), (0, 0)], -1), ([(0, 1), (0, 0)], 1)] = true ∧
+    (match getQuadraticHamiltonian Generated.eqTolerance
+        [([(1, 1), (0, 1)], 1), ([(1, 0), (0, 0)], -1), ([(0, 1), (0, 0)], 1)] ⟨1/2, 0⟩ none false with
+      | .ok P => P.d.length
+      | .error _ => 0) = 4 := by
+  decide +kernel
 
 /-! ### DOCIHamiltonian -/
 
